@@ -17,7 +17,7 @@ rule = ("scripts = 'n begin', node ops, 'n end' (destroy everything, every byte 
         "'stay root / last child of an earlier node / appended to an earlier top-level list', names from {a,b,unnamed} "
         "(patterns abab, aabb, aaaa, a-a-; 4-node states: the first two, 5-node states: the first), followed by EVERY "
         "single op with every operand for which the call's precondition can hold (every eighth state: all operands; positions 0,1,2,-1,-2; "
-        "by position and by name; after/before/add/insert/unlink/move/clone/clone tree/clone list/clear/destroy/"
+        "by position and by name; after/before/add/insert/unlink/move/swap/relink/clone/clone tree/clone list/clear/destroy/"
         "locate/pos), i.e. histories of length <=5 over <=5 nodes; stream 2: every ordered pair of structural ops on "
         "the 3-node states (names aab; positions 0,1,-1 quick / 0,1,2,-1,-2 thorough); stream 3: random histories (12-40 ops, up to ~60 nodes) biased to valid calls by a "
         "python mirror of the forest, with clones of trees of depth >=2, merges of lists with overlapping names, "
@@ -184,6 +184,15 @@ class Mirror:
             l = self.sibs(x)
             self.tops.append([self._clone(y, True) for y in l[l.index(x):]])
 
+    def swap(self, a, b):
+        if a == b or b in self.subtree(a) or a in self.subtree(b):
+            return
+        self.kids[a], self.kids[b] = self.kids[b], self.kids[a]
+        for c in self.kids[a]:
+            self.parent[c] = a
+        for c in self.kids[b]:
+            self.parent[c] = b
+
     def move(self, a, b):
         src = self.sibs(a)
         i = src.index(a)
@@ -253,7 +262,8 @@ def _all_ops(m, n, positions, full):
     det = [x for x in T if m.detached(x)]
     for x in T:
         ops += ["n unlink %d" % x, "n clear %d" % x, "n destroy %d" % x,
-                "n clone %d" % x, "n clone %d tree" % x, "n clone %d list" % x]
+                "n clone %d" % x, "n clone %d tree" % x, "n clone %d list" % x, "n relink %d" % x,
+                "n relink %d scramble" % x]
         for p in positions:
             ops.append("n pos %d %d" % (x, p))
             for nm in ("a", "b"):
@@ -261,6 +271,7 @@ def _all_ops(m, n, positions, full):
     for a in T:
         for b in T:
             ops.append("n move %d %d" % (a, b))
+            ops.append("n swap %d %d" % (a, b))
     xs = T if full else det
     for x in xs:
         for p in T:
@@ -298,11 +309,13 @@ def _struct_ops(n, positions):
     ops = []
     T = range(n)
     for x in T:
-        ops += ["n unlink %d" % x, "n clear %d" % x, "n destroy %d" % x, "n clone %d tree" % x, "n clone %d list" % x]
+        ops += ["n unlink %d" % x, "n clear %d" % x, "n destroy %d" % x, "n clone %d tree" % x, "n clone %d list" % x,
+                "n relink %d scramble" % x]
         for p in T:
             if p == x:
                 continue
             ops.append("n move %d %d" % (p, x))
+            ops.append("n swap %d %d" % (p, x))
             ops.append("n after %d %d" % (p, x))
             ops.append("n before %d %d" % (p, x))
             for pos in positions:
@@ -338,7 +351,7 @@ def _random_history(r, length):
         al = m.alive()
         det = [x for x in al if m.detached(x)]
         kind = r.choice(["new", "new", "insert", "insert", "insert", "add", "after", "before", "unlink", "move", "move",
-                         "clone", "clonetree", "clonelist", "clear", "destroy", "locate", "pos", "wild"])
+                         "clone", "clonetree", "clonelist", "clear", "destroy", "locate", "pos", "wild", "swap", "relink"])
         if not al or kind == "new" or (len(al) < 4 and r.random() < 0.5):
             nm = r.choice(names)
             lines.append("n new %s %s" % (nm, r.choice(["-", "v%d" % m.next, "x"])))
@@ -423,6 +436,12 @@ def _random_history(r, length):
             x = pick(det) if det and r.random() < 0.7 else pick(al)
             lines.append("n destroy %d" % x)
             m.destroy(x)
+        elif kind == "swap":
+            a, b = pick(al), pick(al)
+            lines.append("n swap %d %d" % (a, b))
+            m.swap(a, b)
+        elif kind == "relink":
+            lines.append("n relink %d%s" % (pick(al), r.choice(["", " scramble", " scramble"])))
         elif kind == "locate":
             lines.append("n locate %d %d %s" % (pick(al), r.choice([0, 1, 2, 3, -1, -2]), r.choice(["a", "b", "c", "."])))
         else:
